@@ -439,6 +439,8 @@ def check_config(part: Part, sname: str, pname: str, seed: int, prog: Prog, base
             clause, at, detail = diff
             rep = dict(cfg, clause=clause, first_differing_trial=at)
             if isinstance(at, int) and isinstance(detail[0], dict):
+                # trial k only depends on trials < k: the shortest study showing the divergence has at + 1 trials
+                rep["n_trials"], rep["n_trials_run"] = at + 1, n_trials
                 rep["run_A_trial"], rep["run_B_trial"] = detail
                 rep["common_history_A"] = [(t["number"], t["state"], t["values"]) for t in a["trials"][:at]]
             else:
@@ -454,8 +456,8 @@ def check_config(part: Part, sname: str, pname: str, seed: int, prog: Prog, base
 # tasks
 # =================================================================================================
 def programs_for(pname: str, group: str) -> list[Prog]:
-    if group.startswith("multi"):
-        return [p for p in PROGS.values() if p.n_obj == int(group[5:])]
+    if group.startswith("multi:"):  # one task per multi-objective program (the slow ones: 2^n x 2^n runs)
+        return [PROGS[group[6:]]]
     ps = [p for p in PROGS.values() if p.n_obj == 1]
     return ps if pname == "NopPruner" else [p for p in ps if p.reports]
 
@@ -465,7 +467,7 @@ def bases_for(group: str) -> list[tuple]:
         return [("maximize",)]
     if group == "single-min":
         return [("minimize",)]
-    return list(itertools.product(("minimize", "maximize"), repeat=int(group[5:])))
+    return list(itertools.product(("minimize", "maximize"), repeat=PROGS[group[6:]].n_obj))
 
 
 def task_fn(task: tuple) -> dict:
@@ -506,8 +508,9 @@ def plan(tier: str, notes: list[str]) -> list[tuple]:
                 for pname in PRUNERS:
                     for group in ("single-max", "single-min"):
                         tasks.append((sname, pname, seed, group, n_trials, True))
-                for group in ("multi2", "multi3"):
-                    tasks.append((sname, "NopPruner", seed, group, n_trials, True))
+                for prog in PROGS.values():
+                    if prog.n_obj > 1:
+                        tasks.append((sname, "NopPruner", seed, "multi:" + prog.name, n_trials, True))
     if tier == "thorough":
         why = gp_available()
         if why is None:
